@@ -256,7 +256,7 @@ def rule_option_keys(prog: Program) -> List[Instance]:
     # both variants: extracted options go to output_geobox, the rest to the warp
     for q in ("_xr_interop:_xr_reproject_da", "_xr_interop:_xr_reproject_ds"):
         f = prog.func(q)
-        a = any(isinstance(n, ast.Call) and call_name(n) == "output_geobox" and short(n.args[0]) == "how" and any(k.arg is None and short(k.value) == "kw_gbox" for k in n.keywords) for n in walk_own(f.node))
+        a = any(isinstance(n, ast.Call) and call_name(n) == "output_geobox" and n.args and short(n.args[0]) == "how" and any(k.arg is None and short(k.value) == "kw_gbox" for k in n.keywords) for _g, n in prog.closure_nodes(f))
         inner = [f] + list(f.nested.values())
         b = any(isinstance(n, ast.Call) and call_name(n) in ("rio_reproject", "_dask_rio_reproject", "_xr_reproject_da") and any(k.arg is None and short(k.value) == "kw" for k in n.keywords) for g in inner for n in walk_own(g.node))
         out.append(Instance("R-FORWARD", f"{q}#kw-split", OK if a and b else BAD,
